@@ -369,7 +369,7 @@ package css
 //@   loop 1 transition[F,C08] @comment-sticky: prev(p.prevComment) ==> p.prevComment
 
 //@ func Parser.pushBuf
-//@   ensures[F] len(p.buf) == old(len(p.buf)) + 1 && (old(len(p.buf)) >= 1 ==> sameSlice(p.buf[0].Data, old(p.buf[0].Data))) && sameSlice(p.buf[len(p.buf)-1].Data, data)
+//@   ensures[S] len(p.buf) == old(len(p.buf)) + 1 && (old(len(p.buf)) >= 1 ==> sameSlice(p.buf[0].Data, old(p.buf[0].Data))) && sameSlice(p.buf[len(p.buf)-1].Data, data)
 
 //@ func Parser.parseStylesheet
 //@   preserves[S] cpInv(p) && p.l.r.pos >= old(p.l.r.pos)
@@ -612,6 +612,9 @@ package css
 //@   ensures[F,C08] @eof-closed: result0 == ErrorGrammar && p.err == "" ==> len(p.state) == 1
 //@   ensures[T,C01] @progress: result0 != ErrorGrammar ==> cpM(p) < old(cpM(p))
 //@ func Parser.Err
+// Err reports on the parser's current state and leaves it as it is: the error value is built afresh from err/errPos on every call
+// (nothing is cached in the parser, so a later error is never reported with an earlier one's position)
+//@   observer
 //@   requires[S] p != nil && p.l != nil && lexInv(p.l) && 0 <= p.errPos && p.errPos <= len(p.l.r.buf)-1
 //@   ensures[F,C15] @grammar-error: len(p.err) != 0 ==> result != nil
 //@ func Parser.Offset
